@@ -2,4 +2,5 @@
 CONFIG = {
     "C06": {"shards": {"quick": 14, "thorough": 16}, "timeout": {"quick": 900, "thorough": 3400}},
     "C01": {"shards": {"quick": 10, "thorough": 16}},
+    "C03": {"shards": {"quick": 14, "thorough": 16}, "timeout": {"quick": 900, "thorough": 3400}},
 }
